@@ -1,2 +1,54 @@
-(* C03 *)
-From Grex Require Import Base.Str.
+(* C03 — the shorthand classes generalise exactly as documented.
+
+   The language of the generated expression is the specification language Spec: some test case
+   t, the same number of code points, and every code point accepted by the token that the
+   corresponding code point of t is converted to — the first of \d \w \s \D \W \S that is
+   enabled and contains it (judged by the regex crate's own tables), else the code point
+   itself. *)
+From Grex Require Import Base.Str Base.Ranges Model.Config Model.Cluster Model.Dfa Model.Expr
+  Model.Pipeline.
+From Grex Require Import Proofs.Lang Proofs.Spec Proofs.EngineDen Proofs.Construction
+  Proofs.PropsGlue.
+From Grex Require Import Props.C09.
+From GrexGen Require Import GrexTables OracleTables.
+
+(* the expression denotes the specification (engine classes, case-sensitive literals) *)
+Theorem C03_classes : forall c db sc ws e,
+  ws <> [] ->
+  oracle_ok db (normalise c db ws) ->
+  no_merge (grapheme_clusters c db (normalise c db ws)) = true ->
+  Pipeline.final_expr c (grapheme_clusters c db (normalise c db ws)) sc = Some e ->
+  (forall u, (u <> [] \/ K4 (normalise c db ws) = false) ->
+     (L_expr lit_cs cls_engine e u <-> Spec lit_cs cls_engine c db ws u))
+  /\ (L_expr lit_cs cls_engine e [] -> Spec lit_cs cls_engine c db ws []).
+Proof. exact (construction_lang lit_cs cls_engine). Qed.
+
+(* the specification of one test case, code point by code point: lengths agree and every
+   position is independent *)
+Theorem C03_spec_unfold : forall (lit cls : cp -> cp -> Prop) c s u,
+  Spec_str lit cls c s u <->
+  Forall2 (fun x y => den_str lit cls (class_token c class_chain x) [y]) s u.
+Proof. exact Spec_str_unfold. Qed.
+
+(* what a token accepts: a literal token [x] accepts what the literal x accepts, a class token
+   \l accepts the members of the class *)
+Theorem C03_token_language : forall (lit cls : cp -> cp -> Prop) c x u,
+  den_str lit cls (class_token c class_chain x) u <->
+  exists y, u = [y] /\
+    ((class_token c class_chain x = [x] /\ lit x y)
+     \/ exists l, class_token c class_chain x = [92%N; l] /\ is_class_letter l = true /\ cls l y).
+Proof. exact den_token. Qed.
+
+(* the documented precedence d, w, s, D, W, S — judged by the ENGINE's classes *)
+Theorem C03_token_spec : forall cfg c, class_token cfg class_chain c = spec_token cfg c.
+Proof. exact C09_token_spec. Qed.
+
+(* the engine denotation of a class token is the tok_accepts form of C09 *)
+Theorem C03_cls_engine : forall l x, cls_engine l x <-> tok_accepts [92%N; l] x = true.
+Proof. exact cls_engine_tok. Qed.
+
+Print Assumptions C03_classes.
+Print Assumptions C03_spec_unfold.
+Print Assumptions C03_token_language.
+Print Assumptions C03_token_spec.
+Print Assumptions C03_cls_engine.
